@@ -38,5 +38,5 @@ extern ssize_t mpt_qpre(MPT_STRUCT(queue) *queue, size_t len)
 	total -= len;
 	queue->len += len;
 	
-	return total / len;
+	return len ? total / len : total;
 }
